@@ -134,7 +134,7 @@ impl Property for C22 {
     ]
   }
   fn plan(tier: Tier) -> Plan {
-    Plan { workers: 16, cases_per_worker: tier.pick(400, 12000) }
+    Plan { workers: 16, cases_per_worker: tier.pick(1500, 40000) }
   }
   fn shrink_iters() -> u32 {
     1500
